@@ -6,6 +6,7 @@
 #![allow(unused_macros, unused_variables, dead_code, unused_mut)]
 
 use serde_json::{json, Value};
+use std::cell::RefCell;
 use std::io::{BufRead, Write};
 use std::panic::{catch_unwind, AssertUnwindSafe};
 use std::sync::mpsc;
@@ -31,28 +32,54 @@ fn panic_msg(e: Box<dyn std::any::Any + Send>) -> String {
     }
 }
 
-include!("directed.rs");
-include!("undirected.rs");
+pub struct FilterTable {
+    rows: Vec<(K, K, E, bool)>,
+    default: bool,
+}
+
+impl FilterTable {
+    fn parse(v: &Value) -> Self {
+        let mut rows = vec![];
+        let mut default = true;
+        if let Some(t) = v.get("table").and_then(|t| t.as_array()) {
+            for r in t {
+                rows.push((us(&r[0]), us(&r[1]), i6(&r[2]), r[3].as_bool().unwrap()));
+            }
+            default = v.get("default").and_then(|d| d.as_bool()).unwrap_or(true);
+        }
+        FilterTable { rows, default }
+    }
+    fn lookup(&self, u: K, v: K, e: E) -> bool {
+        for (a, b, c, r) in &self.rows {
+            if *a == u && *b == v && *c == e {
+                return *r;
+            }
+        }
+        self.default
+    }
+}
+
+include!("flavour.rs");
 
 mod fl_digraph {
     use super::*;
     use gdsl::digraph::*;
-    directed_impl!();
+    flavour_impl!(directed);
 }
 mod fl_sync_digraph {
     use super::*;
     use gdsl::sync_digraph::*;
-    directed_impl!();
+    flavour_impl!(directed);
 }
 mod fl_ungraph {
     use super::*;
     use gdsl::ungraph::*;
-    undirected_impl!();
+    flavour_impl!(undirected);
 }
 mod fl_sync_ungraph {
     use super::*;
     use gdsl::sync_ungraph::*;
-    undirected_impl!();
+    flavour_impl!(undirected);
 }
 
 fn run_scenario(scen: Value, tx: mpsc::Sender<Value>) {
